@@ -28,13 +28,20 @@ def run_modules(mods, tag):
                 ids.append(idx)
                 body += src + "\n"
                 lines += src.count("\n") + 1
-            body += "fn main() {\n    ::dx_support::quiet_panics();\n" + "".join("    print!(\"{}\", m%d::run());\n" % i for i in ids) + "}\n"
+            # a panic inside derived code is data: the module is reported as failed (code PANIC), the others still run
+            body += "fn main() {\n    ::dx_support::quiet_panics();\n" + "".join(
+                "    match ::std::panic::catch_unwind(|| m%d::run()) { Ok(s) => print!(\"{}\", s), Err(_) => println!(\"{{\\\"id\\\":%d,\\\"panicked\\\":true}}\") }\n" % (i, i) for i in ids) + "}\n"
             ok, stdout, diags = dx.compile_and_run("r%d_%d" % (bi, attempt), body, wd)
             if ok:
                 for l in stdout.splitlines():
                     if l.startswith("{"):
                         j = json.loads(l)
-                        res.setdefault(j["id"], []).append(j)
+                        if j.get("panicked"):
+                            bad[j["id"]] = [{"code": "PANIC", "msg": "the program panicked while the driver of this module was running"}]
+                        else:
+                            res.setdefault(j["id"], []).append(j)
+                for i in bad:
+                    res.pop(i, None)
                 break
             import bisect
             culprits = {}
